@@ -11,7 +11,10 @@ from props.refprops import RefCheck
 PID = "C16"
 THEOREMS = {"CbProps.C16": ["CbProps.C16." + t for t in [
     "parseDec_renderDec", "renderDec_injective", "parseHex_renderHex", "toU64_lt", "padLeft_length", "padLeft_suffix",
-    "zero_pad_sign_first", "zero_pad_length", "unescape_escape_braces", "printf_text_verbatim"]]}
+    "zero_pad_sign_first", "zero_pad_length", "unescape_escape_braces", "printf_text_verbatim"]],
+    "CbProps.C16Fixed": ["CbProps.C16Fixed." + t for t in [
+        "round_nearest", "round_exact", "round_tie_even", "round_strict", "round_mono", "fraction_digits", "parse_render",
+        "printed_value_nearest"]]}
 
 I64MIN, I64MAX = -2**63, 2**63 - 1
 
@@ -137,8 +140,50 @@ def text_programs(seed, n, gates):
         yield prog(st)
 
 
+FIXED_LITS = ["0.125", "0.375", "2.5", "3.5", "0.5", "1.5", "2.675", "1234.5678", "7.0", "0.1", "0.3", "123456789.125", "0.000001",
+              "99.995", "0.045", "1000000.5", "0.0", "1.0", "9.999", "0.9999999", "655.36", "0.015625", "3.0e0"[:3], "12.0625"]
+
+
+def fixed_cases(r, n, driver):
+    """{x:.Nf} on double variables: the expected text comes from CbModel.Fixed (exact rational arithmetic on the value of the
+    double the literal denotes, num/den supplied by float.as_integer_ratio)"""
+    import math
+    stm = []
+    for lit in FIXED_LITS:
+        for neg in (False, True):
+            for prec in range(0, 13):
+                stm.append((lit, neg, prec))
+    for _ in range(n):
+        k = r.below(3)
+        if k == 0:       # dyadic rationals: exact ties are frequent
+            lit = repr(r.range(0, 4000) / float(2 ** r.range(0, 10)))
+        elif k == 1:
+            lit = "%d.%0*d" % (r.range(0, 99999), r.range(1, 7), r.range(0, 999999))
+        else:
+            lit = "%d.%d5" % (r.range(0, 999), r.range(0, 999))      # decimal "ties" that are not ties in binary
+        if "e" in lit or "E" in lit:
+            continue
+        stm.append((lit, r.chance(40), r.range(0, 12)))
+    lines = []
+    for lit, neg, prec in stm:
+        num, den = float(lit).as_integer_ratio()
+        lines.append("%d\t%d\t%d\t%d" % (1 if neg else 0, num, den, prec))
+    _, mo, _ = common.run_lines_parallel([driver, "c16fixed"], lines)
+    cases = []
+    B = 24
+    for b in range(0, len(stm), B):
+        chunk = list(zip(stm[b:b + B], mo[b:b + B]))
+        body, exp = [], []
+        for i, ((lit, neg, prec), m) in enumerate(chunk):
+            body.append("    double x%d = %s%s;\n    println(\"[{x%d:.%df}]\");\n" % (i, "-" if neg else "", lit, i, prec))
+            exp.append("[%s]\n" % m)
+        cases.append({"id": "fixed-%d" % (b // B), "program": "int main() {\n" + "".join(body) + "    println(\"END\");\n    return 0;\n}\n",
+                      "expect_class": "ok", "expect_stdout": "".join(exp) + "END\n"})
+    return cases, len(stm)
+
+
 def main(a):
-    c = RefCheck(PID, a, ["CbProofs", "CbProps.C16"], THEOREMS)
+    c = RefCheck(PID, a, ["CbProofs", "CbProps.C16", "CbProps.C16Fixed"], THEOREMS)
     if not c.build():
         return c.v.finish()
     if a.replay:
@@ -150,12 +195,18 @@ def main(a):
     c.suite("boundary-integers", value_programs(vals, c.gates, widths), nontrivial=lambda r: hash(r.sexp))
     c.suite("text-and-printf", text_programs(a.seed, 120 if quick else 6000, c.gates),
             nontrivial=lambda r: hash(r.stdout))
+    fc, nfixed = fixed_cases(Rng(a.seed, 163), 300 if quick else 30000, common.driver_path())
+    c.raw_suite("fixed-precision", fc)
     return c.finish(
         rule="boundary-integers: %d integers (every power of two and of ten +-1, type boundaries) x {println, {v}, :x, :X, :b, "
              ":Nd, :0Nd, %%d, %%lld, %%Nd, %%0Nd, %%-Nd} x widths; text-and-printf: random ASCII/UTF-8 literals, doubled "
-             "braces, %%%% %%s %%c, missing and surplus printf arguments, print without newline. non-trivial = distinct "
-             "program / distinct output" % len(vals),
+             "braces, %%%% %%s %%c, missing and surplus printf arguments, print without newline; fixed-precision: {x:.Nf} for N = "
+             "0..12 on double variables initialised from decimal literals (a fixed list incl. exact binary ties 0.125 0.375 2.5 "
+             "and decimal pseudo-ties 2.675 99.995, both signs, plus random dyadic rationals and random decimals), expected text "
+             "from CbModel.Fixed on the exact rational value of the double. non-trivial = distinct program / distinct output" % len(vals),
         extra={"exhaustive": True, "exhaustive_note": "the integer list x format list is enumerated completely; the "
                "text suite is a sample", "integers": len(vals), "widths": widths},
-        assumptions=["floating-point rendering (:.Nf) is not modelled",
+        assumptions=["floating-point rendering is modelled for :.Nf on double values only (exact rational arithmetic; the harness supplies "
+                     "the exact value of the double a literal denotes via Python's float, i.e. correctly rounded strtod); float / quad "
+                     "variables, width with precision ({x:8.2f}) and :e are not exercised",
                      "%x %o %u and {v:o} are not documented conversions and are not exercised"])
